@@ -88,7 +88,7 @@ def run_history(item):
         store_dir = (d / conf["storage_dir"] if conf.get("storage_dir") else d / ".inline-snapshot") / "external"
         tests, uid = [], 0
         obs, problems = [], []
-        known = {}   # sha -> (d, suf)
+        known = {}   # (sha, suffix) -> (d, suf)   (bytes payloads with suffix .bin and .png have the same hash)
         for step in h:
             if step[0] == "add":
                 tests.append({"uid": uid, "d": step[1], "suf": step[2], "arg": ""})
@@ -99,7 +99,7 @@ def run_history(item):
                 del tests[step[1]]
             else:
                 for t in tests:
-                    known[sha(t["d"], t["suf"])] = (t["d"], t["suf"])
+                    known[(sha(t["d"], t["suf"]), SUFFIXES[t["suf"]])] = (t["d"], t["suf"])
                 (d / "test_s.py").write_text(render_tests(tests))
                 flags = [c for c in ("create", "fix", "trim") if step[1][c]]
                 r = driver.run_pytest(d, [f"--inline-snapshot={','.join(flags)}"] if flags else [])
@@ -122,7 +122,7 @@ def run_history(item):
                     a = call.args[0]
                     name = a.args[0].value
                     m = re.fullmatch(r"([0-9a-f]*)\*?(\.[a-z]+)", name)
-                    cands = [v for k, v in known.items() if k.startswith(m.group(1)) and SUFFIXES[v[1]] == m.group(2)]
+                    cands = [v for k, v in known.items() if k[0].startswith(m.group(1)) and k[1] == m.group(2)]
                     if len(cands) != 1:
                         problems.append(f"reference {name!r} matches {len(cands)} known data items")
                         refs.append(None)
@@ -141,8 +141,8 @@ def run_history(item):
                         # I1: the SHA-256 of the bytes is the file name and the bytes are what was outsourced
                         if hashlib.sha256(content).hexdigest() != m.group(1):
                             problems.append(f"{p.name}: content hash differs from the name")
-                        k = known.get(m.group(1))
-                        if k is None or SUFFIXES[k[1]] != m.group(3):
+                        k = known.get((m.group(1), m.group(3)))
+                        if k is None:
                             problems.append(f"{p.name}: not data of this history")
                             continue
                         want = payload(*k)
